@@ -3,6 +3,9 @@ package main
 import (
 	"bytes"
 	"math/rand"
+	"runtime"
+	"sort"
+	"sync"
 
 	"github.com/theQRL/go-qrllib/dilithium"
 
@@ -298,6 +301,129 @@ func c07(r *rand.Rand, tier string, tr *trace.Buf, extra map[string]interface{})
 			}
 		}
 		extra["uniform_boundary_streams"] = want
+	}
+	// boundary search for key generation: seeds for which the conditional addition of q (cAddQ) decides
+	// differently on t - s2 than on t, i.e. a coefficient of A*s1 and of A*s1 + s2 on different sides of 0
+	// (about 1 seed in 3000). The criterion is evaluated on the unpacked key; the judgement is the complete
+	// recomputation of the key by the specification, as for every other keygen event.
+	{
+		const q = 8380417
+		wantKeys := 2
+		if tier == "thorough" {
+			wantKeys = 6
+		}
+		type cand struct {
+			seed [48]uint8
+			ok   bool
+		}
+		ntry := 40000
+		cands := make([]cand, ntry)
+		for i := range cands {
+			r.Read(cands[i].seed[:])
+		}
+		var wg sync.WaitGroup
+		nw := runtime.NumCPU()
+		for w := 0; w < nw; w++ {
+			w := w
+			wg.Add(1)
+			go func() {
+				defer wg.Done()
+				for i := w; i < ntry; i += nw {
+					d, err := dilithium.NewDilithiumFromSeed(cands[i].seed)
+					if err != nil {
+						continue
+					}
+					pk, sk := d.GetPK(), d.GetSK()
+					_, t1 := dilithium.VerifUnpackPk(&pk)
+					_, _, _, t0, _, s2 := dilithium.VerifUnpackSk(&sk)
+					for a := 0; a < dilithium.K && !cands[i].ok; a++ {
+						for b := 0; b < 256; b++ {
+							t := int(t1[a][b])<<13 + int(t0[a][b])
+							if t > q/2 {
+								t -= q
+							}
+							x := t - int(s2[a][b])
+							if (t < 0) != (x < 0) {
+								cands[i].ok = true
+								break
+							}
+						}
+					}
+				}
+			}()
+		}
+		wg.Wait()
+		found := 0
+		for i := 0; i < ntry && found < wantKeys; i++ {
+			if !cands[i].ok {
+				continue
+			}
+			found++
+			d, _ := dilithium.NewDilithiumFromSeed(cands[i].seed)
+			pk, sk := d.GetPK(), d.GetSK()
+			tr.Emit(fix(dEvent{Ev: "keygen", Seed: ints(cands[i].seed[:]), Pk: ints(pk[:]), Sk: ints(sk[:]), Positions: positions(npos), Msg: []int{}, Class: "caddq-boundary"}))
+		}
+		extra["keygen_caddq_boundary_seeds"] = found
+	}
+	// the challenge sampler's rejection loop: among millions of seeds (streams by the standard library) the
+	// ones that consume the most stream bytes
+	{
+		ntry := 3000000
+		if tier == "thorough" {
+			ntry = 12000000
+		}
+		type best struct {
+			c    [32]byte
+			used int
+		}
+		nw := runtime.NumCPU()
+		tops := make([][]best, nw)
+		var wg sync.WaitGroup
+		base := r.Int63()
+		for w := 0; w < nw; w++ {
+			w := w
+			wg.Add(1)
+			go func() {
+				defer wg.Done()
+				rr := rand.New(rand.NewSource(base + int64(w)))
+				var c [32]byte
+				for t := w; t < ntry; t += nw {
+					rr.Read(c[:8])
+					st, _ := oracle.Hash(oracle.SHAKE256_N, c[:], 136)
+					pos := 8
+					for i := 256 - 60; i < 256 && pos < len(st); i++ {
+						for pos < len(st) && int(st[pos]) > i {
+							pos++
+						}
+						pos++
+					}
+					if len(tops[w]) < 2 || pos > tops[w][len(tops[w])-1].used {
+						tops[w] = append(tops[w], best{c, pos})
+						sort.Slice(tops[w], func(a, b int) bool { return tops[w][a].used > tops[w][b].used })
+						if len(tops[w]) > 2 {
+							tops[w] = tops[w][:2]
+						}
+					}
+				}
+			}()
+		}
+		wg.Wait()
+		var all []best
+		for _, t := range tops {
+			all = append(all, t...)
+		}
+		sort.Slice(all, func(a, b int) bool { return all[a].used > all[b].used })
+		if len(all) > 4 {
+			all = all[:4]
+		}
+		var used []int
+		for _, b := range all {
+			c := append([]byte{}, b.c[:]...)
+			p := dilithium.VerifPolyChallenge(c)
+			tr.Emit(fix(dEvent{Ev: "sampler", Kind: "challenge", Buf: ints(c), Out: i32s(p[:]), Msg: []int{}, Positions: [][]int{}, Class: "longest-rejection-runs"}))
+			used = append(used, b.used)
+		}
+		extra["challenge_stream_bytes_used_max"] = used
 	}
 	nsamp := 3
 	if tier == "thorough" {
